@@ -70,9 +70,10 @@ MeshAx2 == [MeshA EXCEPT !.n = <<2, 1>>, !.c = <<12, 24>>]
 MeshB   == [lo |-> <<-12, 0, 24>>, c |-> <<12, 24, 12>>, n |-> <<3, 2, 1>>, dims |-> <<"x", "y", "z">>]
 MeshBx1 == [MeshB EXCEPT !.lo = <<-12, 24, 24>>]
 MeshBx2 == [MeshB EXCEPT !.n = <<3, 1, 1>>, !.c = <<12, 48, 12>>]
-MeshC   == [lo |-> <<8>>, c |-> <<12>>, n |-> <<3>>, dims |-> <<"x">>]
+(* four cells: a constant vector of two or three components is never mistaken for a per-cell array of a scalar field *)
+MeshC   == [lo |-> <<8>>, c |-> <<12>>, n |-> <<4>>, dims |-> <<"x">>]
 MeshCx1 == [MeshC EXCEPT !.lo = <<20>>]
-MeshCx2 == [MeshC EXCEPT !.n = <<1>>, !.c = <<36>>]
+MeshCx2 == [MeshC EXCEPT !.n = <<1>>, !.c = <<48>>]
 
 PoolDef == PoolOn("A.", MeshA, MeshAx1, MeshAx2) @@ PoolOn("B.", MeshB, MeshBx1, MeshBx2) @@ PoolOn("C.", MeshC, MeshCx1, MeshCx2)
 
